@@ -112,8 +112,9 @@ pub(crate) fn load_private_key(wallet_address: &str) -> Result<String, Error> {
 pub(crate) fn load_wallet_from_address(wallet_address: &str) -> Result<Wallet, Error> {
     let network = get_evm_network_from_env().expect("Could not load EVM network from environment");
     let private_key = load_private_key(wallet_address)?;
-    let wallet =
-        Wallet::new_from_private_key(network, &private_key).expect("Could not initialize wallet");
+    // the key comes from a file on disk: whatever it holds must not crash the command
+    let wallet = Wallet::new_from_private_key(network, &private_key)
+        .map_err(|_| Error::InvalidPrivateKeyFile)?;
     Ok(wallet)
 }
 
